@@ -26,6 +26,7 @@ func init() {
 	wrap("C08", extra11C08)
 	wrap("C05", extra11C05)
 	wrap("C19", extra11C19)
+	wrap("C12", extra11C12)
 	wrap("C20", extra11C20)
 	wrap("C10", extra11C10)
 	wrap("C02", extra11C02)
@@ -1069,7 +1070,14 @@ func extra11C20(c *Ctx) {
 		return
 	}
 	mentionsCtl := func(e ast.Node) bool {
-		return e != nil && core.UsesObj(info, e, ctl)
+		if e == nil {
+			return false
+		}
+		if core.UsesObj(info, e, ctl) {
+			return true
+		}
+		// the other spelling of "is a special token": membership of the value in SpecialVocabulary()
+		return specialMembership(info, e)
 	}
 	var tests []core.Loc
 	for _, cb := range g.CondBlocks() {
@@ -1097,14 +1105,121 @@ func extra11C20(c *Ctx) {
 		if !strings.HasSuffix(core.CalleeName(info, call), "strings.Builder.WriteString") || len(call.Args) != 1 {
 			continue
 		}
-		if len(core.CallsTo(info, call.Args[0], false, "model.Vocabulary.Decode")) != 1 {
+		if !decodedValue(info, f.Body, call.Args[0]) {
 			continue
 		}
 		for _, a := range g.AtomsAt(g.Locate(call)) {
-			if be, isB := ast.Unparen(a.Expr).(*ast.BinaryExpr); isB && mentionsCtl(be) && ((be.Op == token.EQL && a.Val) || (be.Op == token.NEQ && !a.Val)) {
+			if be, isB := ast.Unparen(a.Expr).(*ast.BinaryExpr); isB && core.UsesObj(info, be, ctl) && ((be.Op == token.EQL && a.Val) || (be.Op == token.NEQ && !a.Val)) {
+				verbatim = true
+			}
+			if a.Val && specialMembership(info, a.Expr) {
 				verbatim = true
 			}
 		}
 	}
 	c.Check(rule, f.Key()+" special tokens written as they stand", c.Pos(f.Decl), verbatim, "no WriteString of the token's value on the TOKEN_TYPE_CONTROL edge")
+}
+
+// ---------------------------------------------------------------------------------- C12
+
+func extra11C12(c *Ctx) {
+	rule := "C12-R15"
+	c.Rule(rule, "a download resumes only from a set of records that begins at the beginning: run removes the part records first to last before the rename, so a kill in that loop leaves records k..n-1 — in blobDownload.Prepare the size request for a fresh download (and with it the decision to resume) is dominated by a test that hands b.Parts to a helper which compares the parts' Offset fields with a running sum and answers false on a mismatch, and the refusing branch of that test drops the parts — without it the complete data file is truncated to the sum of the surviving records and every later pull fails on the missing record 0")
+	f := c.Fn(rule, "server", "blobDownload.Prepare")
+	if f == nil {
+		return
+	}
+	info := f.Info()
+	g := c.G(f)
+	heads := g.FindCalls("server.makeRequestWithRetry")
+	c.Expect(rule, "size requests in Prepare", len(heads), 1)
+	for _, h := range heads {
+		ok := false
+		why := "no test of the records' coverage dominates the request"
+		for _, cb := range g.CondBlocks() {
+			if cb.Cond == nil || !g.Dominates(g.CondLoc(cb.B), h.Loc) {
+				continue
+			}
+			for _, call := range core.Calls(cb.Cond, false) {
+				if len(call.Args) != 1 || selName(call.Args[0]) != "Parts" {
+					continue
+				}
+				callee := funcByObj(c, "server", core.Callee(info, call))
+				if callee == nil || callee.Body == nil {
+					continue
+				}
+				cinfo := callee.Info()
+				cg := c.G(callee)
+				cmpOffset := false
+				for _, ex := range cg.Returns() {
+					if len(ex.Return.Results) != 1 {
+						continue
+					}
+					tv, has := cinfo.Types[ex.Return.Results[0]]
+					if !has || tv.Value == nil || tv.Value.String() != "false" {
+						continue
+					}
+					for _, a := range cg.AtomsAt(ex.Loc) {
+						if be, isB := ast.Unparen(a.Expr).(*ast.BinaryExpr); isB && mentionsSel(be, "Offset") && ((be.Op == token.NEQ && a.Val) || (be.Op == token.EQL && !a.Val)) {
+							cmpOffset = true
+						}
+					}
+				}
+				if !cmpOffset {
+					why = "the helper " + callee.Key() + " does not answer false on an Offset mismatch"
+					continue
+				}
+				// the refusing branch drops the parts
+				dropped := false
+				for _, anc := range ancestorsOf(f.Body, cb.Cond) {
+					ifs, isIf := anc.(*ast.IfStmt)
+					if !isIf {
+						continue
+					}
+					ast.Inspect(ifs, func(m ast.Node) bool {
+						if as, isAs := m.(*ast.AssignStmt); isAs && len(as.Lhs) == 1 && len(as.Rhs) == 1 && selName(as.Lhs[0]) == "Parts" {
+							if id, isId := ast.Unparen(as.Rhs[0]).(*ast.Ident); isId && id.Name == "nil" {
+								dropped = true
+							}
+						}
+						return true
+					})
+				}
+				if dropped {
+					ok = true
+				} else {
+					why = "the branch of the coverage test does not drop the parts"
+				}
+			}
+		}
+		c.Check(rule, f.Key()+" resumes only from records that start at offset 0", c.Pos(h.Node), ok, why)
+	}
+}
+
+// specialMembership: does e contain slices.Contains(<x>.SpecialVocabulary(), ...)?
+func specialMembership(info *types.Info, e ast.Node) bool {
+	found := false
+	ast.Inspect(e, func(m ast.Node) bool {
+		if call, ok := m.(*ast.CallExpr); ok && core.CalleeName(info, call) == "slices.Contains" && len(call.Args) == 2 {
+			if len(core.CallsTo(info, call.Args[0], false, "model.Vocabulary.SpecialVocabulary")) == 1 {
+				found = true
+			}
+		}
+		return !found
+	})
+	return found
+}
+
+// decodedValue: is e the token's value — vocab.Decode(id) or a local assigned once from it?
+func decodedValue(info *types.Info, body ast.Node, e ast.Expr) bool {
+	e = ast.Unparen(e)
+	if id, ok := e.(*ast.Ident); ok {
+		if v, isV := info.Uses[id].(*types.Var); isV {
+			if rhs, _, cnt := singleDef(info, body, v); cnt == 1 && rhs != nil {
+				e = ast.Unparen(rhs)
+			}
+		}
+	}
+	call, ok := e.(*ast.CallExpr)
+	return ok && core.CalleeName(info, call) == "model.Vocabulary.Decode"
 }
